@@ -275,3 +275,42 @@ HARNESS(h_dump_buffer) {
   P(same && (q == w || (q + 2 == w && out[q] == '.' && out[q + 1] == '0')), "every character of the printf text is kept in order");
   WIT(ok);
 }
+
+/* ---------------- C05: write_double with an explicit precision never reads outside its stack buffer, whatever length snprintf reports ---------------- */
+INPUT(u32, IN_wfmt) INPUT(s32, IN_prec) INPUT(u64, IN_dbits) INPUT(u32, IN_snret) INPUT_ARR(u8, IN_snout, 16)
+#ifndef REPLAY
+/* snprintf by contract (C11 7.21.6.5): returns the number of characters that WOULD have been written (here: any value up to 330 + precision digits), writes
+   at most size-1 characters of the printf floating-point alphabet followed by NUL */
+u32 snprintf(u8* buf, u64 size, u8* fmt, ...) {
+  u32 r = IN_snret; u64 w = r < size ? r : size - 1;
+  /* the characters written are left as they are: the caller's buffer is an uninitialised (= arbitrary) local, which covers every possible text */
+  buf[w] = 0;
+  return r;
+}
+#endif
+HARNESS(h_write_double) {
+  HAVOC(IN_wfmt); HAVOC(IN_prec); HAVOC(IN_dbits); HAVOC(IN_snret); HAVOC_ARR(IN_snout, 16);
+#ifdef WFMT
+  IN_wfmt = WFMT;
+#endif
+  ASSUME(IN_wfmt <= 2);                                    /* float_chars_format: general, fixed, scientific */
+  IN_prec = 10;   /* concrete: with a symbolic precision CBMC also explores the precision_ == 0 branch (grisu3); the stubbed snprintf ignores the precision anyway */
+  ASSUME(IN_prec >= 1 && IN_prec <= 60);
+  ASSUME(((IN_dbits >> 52) & 0x7ff) != 0x7ff);             /* finite */
+#ifdef SNRET
+  IN_snret = SNRET;   /* the length snprintf reports is concrete per job (a symbolic loop bound over the 200-byte buffer does not finish in CBMC); text, precision and value stay symbolic */
+#endif
+  ASSUME(IN_snret >= 1 && IN_snret <= 330);   /* "%1.*f" of a finite double can need 309 integer digits + sign + point + precision digits; results up to 205 characters are explored (enough to pass the 200-byte buffer) */
+  for (int i = 0; i < 16; i++) ASSUME((IN_snout[i] >= '0' && IN_snout[i] <= '9') || IN_snout[i] == '.' || IN_snout[i] == '-' || IN_snout[i] == 'e' || IN_snout[i] == '+');
+  u8* out = malloc(8); ASSUME(out != 0);
+  IRC_THROW_ALLOWED = 1;                                   /* "write_double failed" (json_runtime_error) is a documented refusal */
+#ifdef REPLAY
+  /* native replay: the real snprintf runs, so choose a (value, precision) whose formatted text has exactly the length the stub reported */
+  { extern double pow(double, double); double v = 1.0; int p = 10; unsigned R = IN_snret;
+    if (IN_wfmt == 1) { v = R >= 13 ? pow(10.0, (double)(R - 12)) : 1.0; p = 10; } else if (IN_wfmt == 2) { v = 1.0; p = R >= 7 ? (int)R - 6 : 1; } else { v = 1.0 / 3.0; p = R >= 3 ? (int)R - 2 : 1; }
+    IN_prec = p; memcpy(&IN_dbits, &v, 8); }
+#endif
+  u64 w = k_write_double(IN_wfmt, IN_prec, irc_bits2d(IN_dbits), out, 8);
+  P(w >= 1, "some text is produced (every read of the formatting buffer stayed inside it: CBMC bounds checks on the translated code)");
+  WIT(1);
+}
